@@ -10,6 +10,8 @@ import (
 	"runtime"
 	"strings"
 	"time"
+
+	"gosym/interp"
 )
 
 // replayer builds the harness package natively (go test -c with an overlay)
@@ -177,7 +179,13 @@ func trunc(s string, n int) string {
 func (rp *replayer) run(bin, replayFile string, timeout time.Duration, env ...string) (string, error) {
 	cmd := exec.Command(bin, "-test.run", "^TestReplay$", "-test.timeout", timeout.String(), "-test.v")
 	cmd.Env = append(append(os.Environ(), "VERIF_REPLAY="+replayFile), env...)
-	if n := replayNumCPU(replayFile); n > 0 && n < runtime.NumCPU() {
+	for envName, prm := range interp.EnvParams {
+		if replayParam(replayFile, prm) == 1 {
+			cmd.Env = append(cmd.Env, envName+"=1")
+			env = append(env, envName+"=1")
+		}
+	}
+	if n := replayParam(replayFile, "numcpu"); n > 0 && n < runtime.NumCPU() {
 		// the instance fixes the number of CPUs the code sees: pin the native process accordingly
 		// (runtime.NumCPU reads the affinity mask at start-up)
 		if ts, err := exec.LookPath("taskset"); err == nil {
@@ -309,8 +317,8 @@ func replayMain(file, verif string) int {
 	return 0
 }
 
-// replayNumCPU returns the instance parameter numcpu of a replay file (0 if absent).
-func replayNumCPU(replayFile string) int {
+// replayParam returns an instance parameter of a replay file (0 if absent).
+func replayParam(replayFile, name string) int {
 	b, err := os.ReadFile(replayFile)
 	if err != nil {
 		return 0
@@ -321,5 +329,5 @@ func replayNumCPU(replayFile string) int {
 	if json.Unmarshal(b, &r) != nil {
 		return 0
 	}
-	return r.Params["numcpu"]
+	return r.Params[name]
 }
